@@ -99,7 +99,8 @@ func Intersection[T comparable](slices ...[]T) []T {
 	intersectionMap := make(map[T]int)
 	result := []T{}
 	for _, s := range slices {
-		for _, e := range s {
+		// count each element once per slice, however often it occurs in it
+		for _, e := range Distinct(s) {
 			//nolint:gosimple,staticcheck // This is more readable than the suggested alternative
 			if _, exists := intersectionMap[e]; exists {
 				intersectionMap[e]++
@@ -125,6 +126,7 @@ func Difference[T comparable](s1, s2 []T) []T {
 	}
 	for _, e := range s1 {
 		if _, exists := distinctMap[e]; !exists {
+			distinctMap[e] = struct{}{}
 			result = append(result, e)
 		}
 	}
@@ -136,7 +138,7 @@ func Disjoin[T comparable](slices ...[]T) []T {
 	if len(slices) == 0 {
 		return []T{}
 	}
-	result := slices[0]
+	result := Distinct(slices[0])
 	removed := []T{}
 	for i, s := range slices {
 		if i == 0 {
